@@ -208,7 +208,8 @@ CHECKS = {
             'Chains of futures of depth <=3 (thorough 4) where each level ends with a value, an exception, a cancellation '
             'or the next level are pushed through unwrap_kiwi_future (every completion order and attachment point), '
             'plum_to_kiwi_future+unwrap and Process._schedule_rpc on the deterministic loop (every order and placement), '
-            'futures.create_task over coroutines awaiting 0-2 gates (ending with a value, an exception or a cancellation), and every CancellableAction operation sequence of '
+            'futures.create_task over coroutines awaiting 0-2 gates (ending with a value, an exception or a cancellation; also asked for by another thread while the loop '
+            'sits idle: it must be scheduled through the call that wakes the loop), and every CancellableAction operation sequence of '
             'length <=3; the adapter must end with exactly the innermost outcome, once, and the wrapped function is '
             'called at most once.',
             'A callback delivered by a communicator thread is modelled as a loop callback at an arbitrary queue position; '
